@@ -171,11 +171,29 @@ pub fn decode_answer(goal: &suiron::Goal, ss: &suiron::SubstitutionSet) -> (Vec<
 
 /// Ask the query through `next_solution` until `None` (or `max_answers`), then `reasks` more times.
 pub fn run_program(p: &Program, max_answers: usize, reasks: usize, tick_limit: u64) -> Result<EngineRun, EngineFail> {
+    run_program_src(p, None, max_answers, reasks, tick_limit).map(|r| r.expect("ast kb cannot be rejected"))
+}
+
+/// Like run_program, but the knowledge base may come from source text (one rule per string,
+/// parsed by the engine's parse_rule). Ok(Err(msg)) = the parser rejected a rule.
+pub fn run_program_src(p: &Program, rules_text: Option<&[String]>, max_answers: usize, reasks: usize, tick_limit: u64) -> Result<Result<EngineRun, String>, EngineFail> {
     let cap = capture::active();
     if cap { let _ = capture::take(); }
     guarded(tick_limit, || {
         suiron::start_query();
-        let kb = build_kb(&p.clauses);
+        let kb = match rules_text {
+            None => build_kb(&p.clauses),
+            Some(texts) => {
+                let mut kb = suiron::KnowledgeBase::new();
+                for t in texts {
+                    match suiron::parse_rule(t) {
+                        Ok(r) => suiron::add_rules(&mut kb, vec![r]),
+                        Err(e) => return Err(format!("parse_rule rejected `{}`: {}", t, e)),
+                    }
+                }
+                kb
+            }
+        };
         let goal = Rc::new(query_goal(p));
         let sn = suiron::make_base_node(Rc::clone(&goal), &kb);
         let mut run = EngineRun::default();
@@ -201,7 +219,7 @@ pub fn run_program(p: &Program, max_answers: usize, reasks: usize, tick_limit: u
             }
         }
         run.ticks = ticks();
-        run
+        Ok(run)
     })
 }
 
